@@ -1,7 +1,8 @@
 // Driver for the algorithm family (C06).  NOT part of tetl.
 //
 //   algo_driver list                       -> "<op> <cat> <cat> ..." per line (what this build can drive)
-//   algo_driver run <domain.ndjson> <ops>  -> one ndjson event per call on stdout
+//   algo_driver one <op> <cat> <c> <m> <v> <a keys> <b keys>   -> re-execute one recorded case (--replay)
+//   algo_driver run <domain.ndjson> <ops>  -> one ndjson event per call on stdout (ops: all | op,op/cat,...)
 //
 // The domain file carries the key sequences exported by TLC from spec/Algo.tla (+ one cfg line with
 // the bounds).  For every selected algorithm and every iterator category it is registered for, the
@@ -33,6 +34,7 @@ namespace lib = std;
     #include <etl/iterator.hpp>
     #include <etl/numeric.hpp>
     #include <etl/utility.hpp>
+    #include <etl/vector.hpp>
 namespace lib = etl;
 #endif
 
@@ -275,6 +277,14 @@ ALG(mismatch4)
 ALG(equal3) { RET((int)(x.c == 0 ? lib::equal(aF, aL, bF) : lib::equal(aF, aL, bF, Rel{x.c}))); }
 ALG(equal4) { RET((int)(x.c == 0 ? lib::equal(aF, aL, bF, bL) : lib::equal(aF, aL, bF, bL, Rel{x.c}))); }
 ALG(search) { RET(posA(x.c == 0 ? lib::search(aF, aL, bF, bL) : lib::search(aF, aL, bF, bL, Rel{x.c}))); }
+ALG(search_s)
+{
+    if (x.c == 0) {
+        RET(posA(lib::search(aF, aL, lib::default_searcher(bF, bL))));
+    } else {
+        RET(posA(lib::search(aF, aL, lib::default_searcher(bF, bL, Rel{x.c}))));
+    }
+}
 ALG(find_end) { RET(posA(x.c == 0 ? lib::find_end(aF, aL, bF, bL) : lib::find_end(aF, aL, bF, bL, Rel{x.c}))); }
 ALG(search_n)
 {
@@ -354,6 +364,25 @@ ALG(is_sorted_until) { RET(posA(x.c == 0 ? lib::is_sorted_until(aF, aL) : lib::i
 ALG(is_partitioned) { RET((int)lib::is_partitioned(aF, aL, Un{x.c})); }
 ALG(partition_point) { RET(posA(lib::partition_point(aF, aL, Un{x.c}))); }
 ALG(copy) { RET(posD(lib::copy(aF, aL, dO))); }
+// copy through the library's iterator adaptors: reverse_iterator as source, back_insert_iterator as sink
+ALG(copy_rev)
+{
+    auto rf = lib::reverse_iterator<RD(Elem)>(aL);
+    auto rl = lib::reverse_iterator<RD(Elem)>(aF);
+    RET(posD(lib::copy(rf, rl, dO)));
+}
+ALG(copy_back)
+{
+#ifdef VH_STD
+    std::vector<Elem> sink;
+#else
+    etl::static_vector<Elem, CAP> sink;
+#endif
+    lib::copy(aF, aL, lib::back_inserter(sink));
+    x.used_d = true;
+    for (size_t i = 0; i < sink.size(); ++i) { x.D.f()[i] = sink[i]; }
+    RET((int)sink.size());
+}
 ALG(copy_if) { RET(posD(lib::copy_if(aF, aL, dO, Un{x.c}))); }
 ALG(copy_n) { RET(posD(lib::copy_n(aF, x.m, dO))); }
 ALG(copy_backward)
@@ -520,7 +549,7 @@ int main() { return 0; }
 enum A1K { A_ANY, A_SORTED, A_PART, A_PAIR, A_MID, A_LEN2, A_CLAMP };
 enum A2K { B_NONE, B_SAME, B_NEEDLE, B_SNEEDLE };
 enum MK { M_0, M_M1N, M_0N, M_0N1, M_M1N1, M_KEYS, M_INPLACE };
-enum VK { V_0, V_KEYS, V_REDUCE };
+enum VK { V_0, V_KEYS, V_REDUCE, V_ONE };
 using Cs = std::vector<int>;
 static Cs const C0{0}, CU{0, 1, 2, 3}, CC{0, 1, 2, 3}, CB{0, 1, 4, 5}, CE{0, 4, 5}, C01{0, 1}, C012{0, 1, 2};
 
@@ -565,6 +594,7 @@ static std::vector<Alg> const& table()
         {"equal4", {CB, A_MID, B_NEEDLE, M_0, V_0, false},
          {R_(equal4, P_ptr), R_(equal4, P_ra), R_(equal4, P_io), R_(equal4, P_fwd)}, {}},
         {"search", {CB, A_MID, B_NEEDLE, M_0, V_0, false}, {R_(search, P_ptr), R_(search, P_fwd)}, {}},
+        {"search_s", {CB, A_MID, B_NEEDLE, M_0, V_0, false}, {R_(search_s, P_ptr), R_(search_s, P_fwd)}, {}},
         {"find_end", {CB, A_MID, B_NEEDLE, M_0, V_0, false}, {R_(find_end, P_ptr), R_(find_end, P_fwd)}, {}},
         {"search_n", {CB, A_MID, B_NONE, M_M1N1, V_KEYS, false},
          {R_(search_n, P_ptr),
@@ -606,6 +636,8 @@ static std::vector<Alg> const& table()
         {"is_partitioned", {CU, A_ANY, B_NONE, M_0, V_0, false}, {R_(is_partitioned, P_ptr), R_(is_partitioned, P_io)}, {}},
         {"partition_point", {CU, A_PART, B_NONE, M_0, V_0, false}, {R_(partition_point, P_ptr), R_(partition_point, P_fwd)}, {}},
         {"copy", {C0, A_ANY, B_NONE, M_0, V_0, false}, {R_(copy, P_ptr), R_(copy, P_io)}, {}},
+        {"copy_rev", {C0, A_ANY, B_NONE, M_0, V_0, false}, {R_(copy_rev, P_ptr), R_(copy_rev, P_bidi)}, {}},
+        {"copy_back", {C0, A_ANY, B_NONE, M_0, V_0, false}, {R_(copy_back, P_ptr), R_(copy_back, P_io)}, {}},
         {"copy_if", {CU, A_ANY, B_NONE, M_0, V_0, false}, {R_(copy_if, P_ptr), R_(copy_if, P_io)}, {}},
         {"copy_n", {C0, A_ANY, B_NONE, M_M1N, V_0, false}, {R_(copy_n, P_ptr), R_(copy_n, P_io)}, {}},
         {"copy_backward", {C0, A_ANY, B_NONE, M_0, V_0, false}, {R_(copy_backward, P_ptr), R_(copy_backward, P_bidi)}, {}},
@@ -697,9 +729,9 @@ static std::vector<Alg> const& table()
         {"iota", {C0, A_ANY, B_NONE, M_0, V_KEYS, true}, {R_(iota, P_ptr), R_(iota, P_fwd)}, {}},
         {"accumulate", {C01, A_ANY, B_NONE, M_0, V_KEYS, true}, {R_(accumulate, P_ptr), R_(accumulate, P_io)}, {}},
         {"reduce", {C012, A_ANY, B_NONE, M_0, V_REDUCE, true}, {R_(reduce, P_ptr), R_(reduce, P_io)}, {}},
-        {"inner_product", {C01, A_PAIR, B_SAME, M_0, V_KEYS, true}, {R_(inner_product, P_ptr), R_(inner_product, P_io)}, {}},
+        {"inner_product", {C01, A_PAIR, B_SAME, M_0, V_ONE, true}, {R_(inner_product, P_ptr), R_(inner_product, P_io)}, {}},
         {"transform_reduce1", {C0, A_ANY, B_NONE, M_0, V_KEYS, true}, {R_(transform_reduce1, P_ptr), R_(transform_reduce1, P_io)}, {}},
-        {"transform_reduce2", {C01, A_PAIR, B_SAME, M_0, V_KEYS, true}, {R_(transform_reduce2, P_ptr), R_(transform_reduce2, P_io)}, {}},
+        {"transform_reduce2", {C01, A_PAIR, B_SAME, M_0, V_ONE, true}, {R_(transform_reduce2, P_ptr), R_(transform_reduce2, P_io)}, {}},
         {"partial_sum", {C01, A_ANY, B_NONE, M_0, V_0, true}, {R_(partial_sum, P_ptr), R_(partial_sum, P_io)}, {}},
         {"adjacent_difference", {C01, A_ANY, B_NONE, M_0, V_0, true}, {R_(adjacent_difference, P_ptr), R_(adjacent_difference, P_io)}, {}},
     };
@@ -804,12 +836,68 @@ static std::vector<int> codes(Buf<T>& b)
     return v;
 }
 
+static void run_case(Alg const& alg, Run const& run, std::vector<int> const& ka, std::vector<int> const& kb, int m, int v, int c)
+{
+    static Case x; // buffers are fully re-initialised for every case
+    Shape const& sh = alg.sh;
+    int n           = (int)ka.size();
+    int nb          = (int)kb.size();
+    x.a.clear();
+    x.b.clear();
+    for (int i = 0; i < n; ++i) { x.a.push_back(ka[(size_t)i] * 16 + i + 1); }
+    for (int i = 0; i < nb; ++i) { x.b.push_back(kb[(size_t)i] * 16 + 8 + i + 1); }
+    x.m = m, x.v = v, x.c = c, x.numeric = sh.numeric;
+    x.used_d = x.used_d2 = false;
+    x.r.clear();
+    int dl = n + nb + 2;
+    if (sh.numeric) {
+        x.IA.set(x.a), x.IB.set(x.b), x.ID.blanks(dl);
+    } else {
+        x.A.set(x.a), x.B.set(x.b), x.D.blanks(dl), x.D2.blanks(dl);
+    }
+    std::memset(g_touch, 0, sizeof g_touch);
+    run.fn(x);
+    g_out.clear();
+    g_out += "{\"op\":\"";
+    g_out += alg.name;
+    g_out += "\",\"inst\":\"";
+    g_out += run.cat;
+    g_out += "\"";
+    put_arr("a", x.a);
+    put_arr("b", x.b);
+    char tmp[64];
+    std::snprintf(tmp, sizeof tmp, ",\"m\":%d,\"v\":%d,\"c\":%d", m, v, c);
+    g_out += tmp;
+    bool ok;
+    if (sh.numeric) {
+        put_arr("oa", codes(x.IA));
+        put_arr("ob", codes(x.IB));
+        put_arr("od", x.used_d ? codes(x.ID) : std::vector<int>{});
+        put_arr("oc", {});
+        ok = x.IA.intact() && x.IB.intact() && x.ID.intact();
+    } else {
+        put_arr("oa", codes(x.A));
+        put_arr("ob", codes(x.B));
+        put_arr("od", x.used_d ? codes(x.D) : std::vector<int>{});
+        put_arr("oc", x.used_d2 ? codes(x.D2) : std::vector<int>{});
+        ok = x.A.intact() && x.B.intact() && x.D.intact() && x.D2.intact();
+    }
+    put_arr("r", x.r);
+    std::vector<int> p;
+    for (int i = 0; i < 256; ++i) {
+        if (g_touch[i]) { p.push_back(i); }
+    }
+    put_arr("p", p);
+    g_out += ok ? ",\"cz\":1}\n" : ",\"cz\":0}\n";
+    std::fwrite(g_out.data(), 1, g_out.size(), stdout);
+    std::fflush(stdout);
+}
+
 static long run_group(Alg const& alg, Run const& run, Domain const& dom)
 {
     long count      = 0;
     Shape const& sh = alg.sh;
     int amax        = sh.a1 == A_PAIR ? dom.MaxPair : sh.a1 == A_MID ? dom.MaxA2 : dom.MaxLen;
-    static Case x; // buffers are fully re-initialised for every case
     for (int c : sh.cs) {
         for (auto const& ka : dom.seqs) {
             int n = (int)ka.size();
@@ -836,57 +924,10 @@ static long run_group(Alg const& alg, Run const& run, Domain const& dom)
                 }
                 for (int m = mlo; m <= mhi; ++m) {
                     if (sh.mk == M_INPLACE && !(sorted_k(ka, c, 0, (size_t)m) && sorted_k(ka, c, (size_t)m, ka.size()))) { continue; }
-                    int vhi = sh.vk == V_0 ? 0 : (sh.vk == V_REDUCE && c == 0) ? 0 : 2;
-                    for (int v = 0; v <= vhi; ++v) {
-                        x.a.clear();
-                        x.b.clear();
-                        for (int i = 0; i < n; ++i) { x.a.push_back(ka[(size_t)i] * 16 + i + 1); }
-                        for (int i = 0; i < nb; ++i) { x.b.push_back(kb[(size_t)i] * 16 + 8 + i + 1); }
-                        x.m = m, x.v = v, x.c = c, x.numeric = sh.numeric;
-                        x.used_d = x.used_d2 = false;
-                        x.r.clear();
-                        int dl = n + nb + 2;
-                        if (sh.numeric) {
-                            x.IA.set(x.a), x.IB.set(x.b), x.ID.blanks(dl);
-                        } else {
-                            x.A.set(x.a), x.B.set(x.b), x.D.blanks(dl), x.D2.blanks(dl);
-                        }
-                        std::memset(g_touch, 0, sizeof g_touch);
-                        run.fn(x);
-                        g_out.clear();
-                        g_out += "{\"op\":\"";
-                        g_out += alg.name;
-                        g_out += "\",\"inst\":\"";
-                        g_out += run.cat;
-                        g_out += "\"";
-                        put_arr("a", x.a);
-                        put_arr("b", x.b);
-                        char tmp[64];
-                        std::snprintf(tmp, sizeof tmp, ",\"m\":%d,\"v\":%d,\"c\":%d", m, v, c);
-                        g_out += tmp;
-                        bool ok;
-                        if (sh.numeric) {
-                            put_arr("oa", codes(x.IA));
-                            put_arr("ob", codes(x.IB));
-                            put_arr("od", x.used_d ? codes(x.ID) : std::vector<int>{});
-                            put_arr("oc", {});
-                            ok = x.IA.intact() && x.IB.intact() && x.ID.intact();
-                        } else {
-                            put_arr("oa", codes(x.A));
-                            put_arr("ob", codes(x.B));
-                            put_arr("od", x.used_d ? codes(x.D) : std::vector<int>{});
-                            put_arr("oc", x.used_d2 ? codes(x.D2) : std::vector<int>{});
-                            ok = x.A.intact() && x.B.intact() && x.D.intact() && x.D2.intact();
-                        }
-                        put_arr("r", x.r);
-                        std::vector<int> p;
-                        for (int i = 0; i < 256; ++i) {
-                            if (g_touch[i]) { p.push_back(i); }
-                        }
-                        put_arr("p", p);
-                        g_out += ok ? ",\"cz\":1}\n" : ",\"cz\":0}\n";
-                        std::fwrite(g_out.data(), 1, g_out.size(), stdout);
-                        std::fflush(stdout);
+                    int vlo = sh.vk == V_ONE ? 1 : 0;
+                    int vhi = sh.vk == V_ONE ? 1 : sh.vk == V_0 ? 0 : (sh.vk == V_REDUCE && c == 0) ? 0 : 2;
+                    for (int v = vlo; v <= vhi; ++v) {
+                        run_case(alg, run, ka, kb, m, v, c);
                         ++count;
                     }
                 }
@@ -907,8 +948,31 @@ int main(int argc, char** argv)
         }
         return 0;
     }
+    if (argc == 9 && std::strcmp(argv[1], "one") == 0) {
+        // one <op> <cat> <c> <m> <v> <a keys, e.g. 0120 or -> <b keys>: re-execute a single recorded case
+        auto keys = [](char const* s) {
+            std::vector<int> k;
+            for (; *s; ++s) {
+                if (*s >= '0' && *s <= '9') { k.push_back(*s - '0'); }
+            }
+            return k;
+        };
+        std::printf("{\"op\":\"#replay\",\"inst\":\"-\"}\n");
+        bool found = false;
+        for (auto const& a : table()) {
+            for (auto const& r : a.runs) {
+                if (std::strcmp(a.name, argv[2]) == 0 && std::strcmp(r.cat, argv[3]) == 0) {
+                    run_case(a, r, keys(argv[7]), keys(argv[8]), std::atoi(argv[5]), std::atoi(argv[6]), std::atoi(argv[4]));
+                    found = true;
+                }
+            }
+        }
+        std::printf("{\"op\":\"#end\",\"inst\":\"-\"}\n");
+        if (!found) { std::fprintf(stderr, "UNSUPPORTED %s %s\n", argv[2], argv[3]); }
+        return found ? 0 : 3;
+    }
     if (argc < 4 || std::strcmp(argv[1], "run") != 0) {
-        std::fprintf(stderr, "usage: algo_driver list | run <domain> <op,op,...|all>\n");
+        std::fprintf(stderr, "usage: algo_driver list | run <domain> <op|op/cat,...|all>\n");
         return 2;
     }
     Domain dom      = read_domain(argv[2]);
@@ -916,9 +980,12 @@ int main(int argc, char** argv)
     bool all        = std::strcmp(argv[3], "all") == 0;
     long total      = 0;
     for (auto const& a : table()) {
-        if (!all && sel.find(std::string(",") + a.name + ",") == std::string::npos) { continue; }
-        for (auto const* u : a.unsupported) { std::fprintf(stderr, "UNSUPPORTED %s %s\n", a.name, u); }
+        bool whole = all || sel.find(std::string(",") + a.name + ",") != std::string::npos;
+        if (whole) {
+            for (auto const* u : a.unsupported) { std::fprintf(stderr, "UNSUPPORTED %s %s\n", a.name, u); }
+        }
         for (auto const& r : a.runs) {
+            if (!whole && sel.find(std::string(",") + a.name + "/" + r.cat + ",") == std::string::npos) { continue; }
             long k = run_group(a, r, dom);
             std::fprintf(stderr, "GROUP %s %s %ld\n", a.name, r.cat, k);
             total += k;
